@@ -7,6 +7,7 @@ import itertools
 import math
 
 from xmc import alphabets as A
+from xmc import canon as C
 from xmc import explore, histcheck
 
 PROP = "C06"
@@ -294,25 +295,25 @@ def undirected_definitions(rep, H):
         for n in nodes:
             for s in (1, 2):
                 want = {m for m in nodes if m != n and len(ms[n] & ms[m]) >= s}
-                got = H.nodes.neighbors(n, s) if s != 1 else H.nodes.neighbors(n)
+                got = H.nodes.neighbors(C.fresh(n), s) if s != 1 else H.nodes.neighbors(C.fresh(n))  # IDs named by value
                 if set(got) != want:
                     rep.bad("neighbors", f"nodes.neighbors({n!r}, s={s}) = {got}, expected {want}")
         for e in edges:
             for s in (1, 2):
                 want = {f for f in edges if f != e and len(mem[e] & mem[f]) >= s}
-                got = H.edges.neighbors(e, s)
+                got = H.edges.neighbors(C.fresh(e), s)
                 if set(got) != want:
                     rep.bad("neighbors", f"edges.neighbors({e!r}, s={s}) = {got}, expected {want}")
         for k in range(0, min(len(nodes), 4) + 1):
             for sub in itertools.combinations(nodes[:4], k):
                 want = [e for e in edges if mem[e] == set(sub)]
-                got = list(H.edges.lookup(list(sub)))
+                got = list(H.edges.lookup([C.fresh(x) for x in sub]))
                 if got != want:
                     rep.bad("lookup", f"edges.lookup({list(sub)}) = {got}, expected {want}")
         for k in range(0, min(len(edges), 3) + 1):
             for sub in itertools.combinations(edges[:4], k):
                 want = [n for n in nodes if ms[n] == set(sub)]
-                got = list(H.nodes.lookup(list(sub)))
+                got = list(H.nodes.lookup([C.fresh(x) for x in sub]))
                 if got != want:
                     rep.bad("lookup", f"nodes.lookup({list(sub)}) = {got}, expected {want}")
         for label, view, table, ids in (("edges", H.edges, mem, edges), ("nodes", H.nodes, ms, nodes)):
